@@ -2052,6 +2052,205 @@ def anchors(ctx, r):
             r.ok("%s::%s: frame parameter %s" % (last(cls), fnm, frame_param(f)))
 
 
+# ------------------------------------------------------------------ R9: the UTF-8 validator is RFC 3629, decided exactly per sequence
+
+def _rfc3629(c, b1):
+    """is (lead byte c, second byte b1) the start of a well-formed sequence, all later bytes being continuation bytes (RFC 3629 section 4)"""
+    cont = 0x80 <= b1 <= 0xBF
+    if c <= 0x7F:
+        return True
+    if 0xC2 <= c <= 0xDF:
+        return cont
+    if c == 0xE0:
+        return 0xA0 <= b1 <= 0xBF
+    if c == 0xED:
+        return 0x80 <= b1 <= 0x9F
+    if 0xE1 <= c <= 0xEF:
+        return cont
+    if c == 0xF0:
+        return 0x90 <= b1 <= 0xBF
+    if 0xF1 <= c <= 0xF3:
+        return cont
+    if c == 0xF4:
+        return 0x80 <= b1 <= 0x8F
+    return False
+
+
+def r9(ctx, r):
+    """One iteration of the validator's loop is a function of the lead byte and the byte after it (later bytes only have to be continuation
+    bytes): it is evaluated exactly for all 65536 pairs on the CFG — the conditions are pure integer expressions over the lead byte, the
+    sequence length it selects, the inner counter and payload[pos + k] — and compared with the table of RFC 3629.  Length is assumed
+    sufficient (the truncation test is taken as false) and bytes after the second as valid continuation bytes."""
+    from ..finite import compile_expr, NotPure
+    fb = ctx.fb()
+    def _sub(x):
+        """(buffer expression, index expression) of a subscript — operator[] of a container or the built-in one of a pointer"""
+        x = strip_casts(x) if isinstance(x, dict) else None
+        if x is not None and x.get("k") == "opcall" and x.get("op") == "[]" and len(x.get("args", [])) == 2:
+            return strip_casts(x["args"][0]), strip_casts(x["args"][1])
+        if x is not None and x.get("k") == "idx":
+            return strip_casts(x["b"]), strip_casts(x["i"])
+        return None
+    fs = {}
+    for f in fb.functions:
+        if f.ok and last(f.name) == "isValidUtf8" and "websocket_frame.hpp" in f.file and any(_sub(x) for e in f.stmts() for x in walk(e.node)):
+            fs[(f.file, f.line)] = f        # the definition that reads bytes; an overload that only forwards to it reads none
+    if len(fs) != 1:
+        raise AnalysisBroken("isValidUtf8: %d definitions that read bytes in websocket_frame.hpp" % len(fs))
+    f = list(fs.values())[0]
+    # roles by dataflow: the lead byte is the byte-typed local initialised from <buffer>[<pos>]; pos is the variable indexing it
+    lead = None
+    for e in f.stmts():
+        if e.node.get("k") == "decl":
+            for v in e.node["vars"]:
+                i0 = strip_casts(v.get("init")) if isinstance(v.get("init"), dict) else None
+                if _sub(i0) and _sub(i0)[1].get("k") == "var" \
+                        and (v.get("t") or "").replace("std::", "") in ("unsigned char", "uint8_t", "const unsigned char", "const uint8_t"):
+                    if lead is not None:
+                        raise AnalysisBroken("isValidUtf8: more than one byte local read from the buffer")
+                    lead = (e, v, show(_sub(i0)[0]), _sub(i0)[1]["d"])
+    if lead is None:
+        raise AnalysisBroken("isValidUtf8: no byte-typed local initialised from buffer[pos] found")
+    le, lv, bufs, posd = lead
+    ints = {}                     # d -> name of the other integer locals (sequence length, inner counter)
+    for e in f.stmts():
+        if e.node.get("k") == "decl":
+            for v in e.node["vars"]:
+                if v["d"] not in (lv["d"], posd) and isinstance(v.get("t"), str):
+                    ints[v["d"]] = v["n"]
+    names = [lv["n"]] + sorted(set(ints.values())) + ["__b"]
+
+    def prep(n):
+        """conditions with buffer[pos + k] replaced by the variable __b (its value is chosen by k at evaluation time); returns (node, k expression or None)"""
+        ks = []
+
+        def go(x):
+            if isinstance(x, dict):
+                x0 = x
+                if _sub(x) and show(_sub(x)[0]) == bufs:
+                    ix = _sub(x)[1]
+                    if ix.get("k") == "bin" and ix.get("op") == "+" and strip_casts(ix["lhs"]).get("k") == "var" and strip_casts(ix["lhs"]).get("d") == posd:
+                        ks.append(strip_casts(ix["rhs"]))
+                        return {"k": "var", "n": "__b", "t": "unsigned char", "d": -1}
+                    raise NotPure("buffer read at `%s`" % show(ix))
+                return {kk: go(vv) for kk, vv in x0.items()}
+            if isinstance(x, list):
+                return [go(y) for y in x]
+            return x
+        m = go(n)
+        if len(ks) > 1:
+            raise NotPure("two buffer reads in one condition")
+        return m, (ks[0] if ks else None)
+
+    plans = {}
+    try:
+        for b in f.blocks.values():
+            acts = []
+            for e in b.elems:
+                if e.kind != "stmt" or "root" not in e.raw or e.node is None:
+                    continue
+                n = e.node
+                k = n.get("k")
+                if b.cond is not None and (n is b.cond or n.get("id") == b.cond.get("id")):
+                    continue
+                if k == "ret":
+                    acts.append(("ret", const_value(strip_casts(n.get("v") or {}))))
+                elif k == "decl":
+                    for v in n["vars"]:
+                        if v["d"] in ints:
+                            acts.append(("set", v["n"], compile_expr(strip_casts(v["init"]), names)[0] if isinstance(v.get("init"), dict) else (lambda *a: 0)))
+                elif is_assign(n):
+                    lhs, op, rhs = _ap(n)
+                    l0 = strip_casts(lhs)
+                    if l0.get("k") == "var" and l0.get("d") == posd:
+                        acts.append(("next",))
+                    elif l0.get("k") == "var" and l0.get("d") in ints and op == "=":
+                        acts.append(("set", l0["n"], compile_expr(strip_casts(rhs), names)[0]))
+                    else:
+                        raise NotPure("assignment `%s`" % show(n)[:40])
+                elif k == "un" and "++" in n.get("op", "") and strip_casts(n["v"]).get("k") == "var" and strip_casts(n["v"]).get("d") in ints:
+                    nm = strip_casts(n["v"])["n"]
+                    acts.append(("set", nm, eval("lambda *a: a[%d] + 1" % names.index(nm))))
+                elif k in ("bin", "un", "opcall", "mcall", "var", "member", "cast"):
+                    continue      # fragments of conditions
+                else:
+                    raise NotPure("statement kind %s" % k)
+            cond = None
+            if b.term and b.term.get("k") == "SwitchStmt" and b.cond is not None:
+                m, kx = prep(strip_casts(b.cond))
+                labs = []
+                for si, sid in enumerate(b.succs):
+                    if sid is None:
+                        continue
+                    lab = b.edge_label(si)
+                    cvv = const_value(strip_casts(lab[1])) if isinstance(lab, tuple) else None
+                    if isinstance(lab, tuple) and cvv is None:
+                        raise NotPure("case label `%s`" % show(lab[1]))
+                    labs.append((cvv, sid))
+                cond = ("switch", compile_expr(m, names)[0], compile_expr(kx, names)[0] if kx is not None else None, labs)
+            elif b.cond is not None and len([x for x in b.succs if x is not None]) == 2:
+                c0 = strip_casts(b.cond)
+                if any((x.get("k") == "mcall" and last(x.get("callee", "")) in ("size", "length")) or (x.get("k") == "var" and x.get("parm") is not None and "*" not in (x.get("t") or "*")) for x in walk(c0)):
+                    mentions_lead_block = any(x.get("k") == "var" and x.get("d") in ints for x in walk(c0))
+                    cond = ("size", mentions_lead_block)       # loop test `pos < size()` / truncation test `pos + len > size()`
+                else:
+                    m, kx = prep(c0)
+                    cond = ("expr", compile_expr(m, names)[0], compile_expr(kx, names)[0] if kx is not None else None)
+            plans[b.id] = (acts, cond, b.succs)
+    except NotPure as ex:
+        raise AnalysisBroken("isValidUtf8: outside the pure integer fragment the exact evaluation covers (%s)" % ex)
+    start = le.block.id if hasattr(le, "block") else next(b.id for b in f.blocks.values() if le in b.elems)
+
+    def run(c, b1):
+        env = {nm: 0 for nm in names}
+        env[lv["n"]] = c
+        bid = start
+        for _ in range(200):
+            acts, cond, succs = plans[bid]
+            for a in acts:
+                vals = [env[nm] for nm in names]
+                if a[0] == "ret":
+                    return bool(a[1])
+                if a[0] == "next":
+                    return True
+                env[a[1]] = a[2](*vals)
+            if cond is None:
+                nxt = [x for x in succs if x is not None]
+                if len(nxt) != 1:
+                    raise AnalysisBroken("isValidUtf8: block B%d has %d successors and no condition" % (bid, len(nxt)))
+                bid = nxt[0]
+            elif cond[0] == "switch":
+                if cond[2] is not None:
+                    kk = cond[2](*[env[nm] for nm in names])
+                    env["__b"] = b1 if kk == 1 else 0x80
+                v = cond[1](*[env[nm] for nm in names])
+                hit = [sid for cvv, sid in cond[3] if cvv is not None and cvv == v] or [sid for cvv, sid in cond[3] if cvv is None]
+                if len(hit) != 1:
+                    raise AnalysisBroken("isValidUtf8: switch in B%d has %d edges for the value %d" % (bid, len(hit), v))
+                bid = hit[0]
+            elif cond[0] == "size":
+                if not cond[1]:
+                    raise AnalysisBroken("isValidUtf8: the loop test is reached again before the position is advanced")
+                bid = succs[1]                        # enough bytes: the truncation test is false
+            else:
+                if cond[2] is not None:
+                    kk = cond[2](*[env[nm] for nm in names])
+                    env["__b"] = b1 if kk == 1 else 0x80
+                bid = succs[0] if cond[1](*[env[nm] for nm in names]) else succs[1]
+        raise AnalysisBroken("isValidUtf8: one iteration does not end within 200 steps")
+    bad = []
+    for c in range(256):
+        for b1 in range(256):
+            got = run(c, b1)
+            if got != _rfc3629(c, b1):
+                bad.append((c, b1, got))
+    r.instance()
+    r.expect(not bad, f, le, "UTF-8 table", "isValidUtf8 %s the sequence starting %s (and %d more of the 65536 lead/second-byte pairs differ from RFC 3629): text that is %s"
+             % (("accepts" if bad[0][2] else "rejects") if bad else "", "0x%02X 0x%02X" % (bad[0][0], bad[0][1]) if bad else "", max(len(bad) - 1, 0),
+                ("not UTF-8 is delivered" if bad[0][2] else "valid UTF-8 is refused with 1007") if bad else ""),
+             okdesc="isValidUtf8: one loop iteration evaluated for all 65536 (lead, second byte) pairs = RFC 3629 table 3-7")
+
+
 def run(ctx, ck):
     r0 = ck.run_rule("C18-R0", "the roles the rules speak about (input view, cursor, consumed, parse-loop buffer/offset, frame parameter) are derived from types and dataflow, not from local names", "role derivation", lambda r: anchors(ctx, r))
     if r0.broken:
@@ -2067,6 +2266,7 @@ def run(ctx, ck):
     FOLLOWS_HELPERS.update({"C18-R%d" % i: _FOLLOWS for i in (1, 2, 3, 4, 5, 6, 8)})
     FOLLOWS_HELPERS["C18-R7"] = "walks the call graph from the data callbacks itself: every function reached, known or new, is scanned for throwing primitives"
     ck.run_rule("C18-R8", "a completed message is delivered under the opcode its START frame recorded; `in progress` is never read off the buffer's emptiness; server and client agree", "A5 exact predicate abstraction + A11 sibling tables", lambda r: r8(ctx, r))
+    ck.run_rule("C18-R9", "text checked as UTF-8: the validator accepts exactly the well-formed sequences of RFC 3629", "A6 exact finite-domain evaluation of one loop iteration (65536 lead/second-byte pairs) against the RFC table", lambda r: r9(ctx, r))
     if _UNFOLLOWED:
         FOLLOWS_HELPERS.clear()     # something new could not be followed: violations in code that runs through it are refusals (inventory guard)
         ck.extra["functions_not_followed"] = sorted(_UNFOLLOWED)[:20]
